@@ -10,14 +10,16 @@ import (
 type fPayload struct {
 	a string
 	b int
+	// T is ordinary text that ends up inside the JSON document
+	T string `json:"t"`
 	// X is nil, except in native replays of runs in which the solver let the JSON encoder fail
 	X interface{} `json:"x,omitempty"`
 }
 
 // symEvent: an event with symbolic type/time and a format table that is nil or holds up to 2 symbolic entries
 func symEvent() (*Event, *fPayload, [2]string, [2]string, int) {
-	p := &fPayload{a: nondetString(), b: nondetInt(), X: verifMaybeUnencodable()}
-	e := &Event{Type: EventType(nondetString()), CreatedAt: time.Unix(0, int64(nondetInt())), Payload: p}
+	p := &fPayload{a: nondetString(), b: nondetInt(), T: nondetText(), X: verifMaybeUnencodable()}
+	e := &Event{Type: EventType(nondetText()), CreatedAt: time.Unix(0, int64(nondetInt())), Payload: p}
 	if nondetBool() {
 		// no payload at all: the document still has a payload member (null)
 		e.Payload = nil
@@ -28,7 +30,7 @@ func symEvent() (*Event, *fPayload, [2]string, [2]string, int) {
 		e.Formatted = map[string][]byte{}
 		n = symLen(0, 2)
 		for i := 0; i < n; i++ {
-			ks[i], vs[i] = nondetString(), nondetString()
+			ks[i], vs[i] = nondetString(), nondetText()
 			if i == 1 {
 				verifAssume(ks[1] != ks[0])
 			}
